@@ -245,7 +245,7 @@ def run(chk, tier, seed):
     for tr in traces:
         t2 = {k: tr[k] for k in ('uids', 'spec', 'named', 'ncores')}
         t2['events'] = [{k: e[k] for k in ('ev', 'arg', 'raised', 'killed', 'err', 'client', 'free',
-                                           'pool', 'intasks')} for e in tr['events']]
+                                           'pool', 'intasks', 'live')} for e in tr['events']]
         for e, e2 in zip(tr['events'], t2['events']):
             e2['rel'] = list(e['uids']) if e['ev'] == 'unsched' else []
         slim.append(t2)
@@ -300,7 +300,7 @@ def replay(chk, obj):
         tr = rig.run(P.scripted(how['script'], random.Random(how['fallback_seed'])))
     t2 = {k: tr[k] for k in ('uids', 'spec', 'named', 'ncores')}
     t2['events'] = [{k: e[k] for k in ('ev', 'arg', 'raised', 'killed', 'err', 'client', 'free',
-                                       'pool', 'intasks')} for e in tr['events']]
+                                       'pool', 'intasks', 'live')} for e in tr['events']]
     for e, e2 in zip(tr['events'], t2['events']):
         e2['rel'] = list(e['uids']) if e['ev'] == 'unsched' else []
     res, st = tracecheck.validate('Pipeline', 'PipelineTrace', '', [t2])
